@@ -594,6 +594,137 @@ Proof.
   - assumption.
 Qed.
 
+(* one iteration of the loop over proteins *)
+Lemma step_ok : forall done p peps g pm,
+  In (p, peps) L -> incl done L -> ~ In p (map fst done) -> peps <> [] ->
+  (forall y, In y done -> length peps <= length (snd y)) ->
+  ginv done g pm ->
+  exists g' pm', gr_step P peqb pi (g, pm) (p, peps) = Ok (g', pm') /\
+                 ginv (done ++ [(p, peps)]) g' pm'.
+Proof.
+  intros done p peps g pm HpL HdL Hpnd Hne Hlen Hgi.
+  assert (Hpg : forall n S, In (n, S) g -> ~ In p n).
+  { intros n S Hin Hp. destruct (c_members _ _ (gi_core _ _ _ Hgi) n S p Hin Hp) as [H _]. contradiction. }
+  destruct g as [|e g0].
+  { exists [([p], peps)], pm. split; [reflexivity|].
+    apply (add_group_ok done p peps [] pm); try assumption. intros m S []. }
+  remember (e :: g0) as g eqn:Eg.
+  assert (Hstep : gr_step P peqb pi (g, pm) (p, peps) =
+                  match gr_matches P peqb pi p peps g pm with
+                  | Err e0 => Err e0
+                  | Ok [] => Ok (dict_set [p] peps g, pm)
+                  | Ok ms => gr_renames P peqb p (g, pm) ms
+                  end).
+  { subst g. reflexivity. }
+  clear Eg e g0.
+  pose proof Hgi as Hgi0. destruct Hgi as [Hc Hcomp Hcov Hinv Hnd].
+  destruct (matches_ok _ p peps g pm Hc Hinv Hnd Hne) as [ms [Hrun [Hndms Hms]]].
+  rewrite Hrun in Hstep. destruct ms as [|m0 ms'].
+  - (* no match *)
+    assert (Hfresh : haskey [p] g = false).
+    { destruct (haskey [p] g) eqn:E; [|reflexivity]. apply haskey_spec in E. destruct E as [S1 H1].
+      exfalso. apply (Hpg [p] S1 H1). left. reflexivity. }
+    rewrite dict_set_fresh in Hstep by assumption.
+    exists (g ++ [([p], peps)]), pm. split; [exact Hstep|].
+    apply add_group_ok; try assumption.
+    intros m S Hin Hsub. assert (H : In m []) by (apply Hms; exists S; split; assumption). destruct H.
+  - (* at least one match *)
+    set (rest := m0 :: ms') in *.
+    set (proc' := fun x => In x (map fst (done ++ [(p, peps)]))).
+    assert (Hc' : core proc' g).
+    { eapply core_mono; [|exact Hc]. intros x H. unfold proc'. rewrite map_app. apply in_app_iff. left. assumption. }
+    assert (Hproc : proc' p).
+    { unfold proc'. rewrite map_app. apply in_app_iff. right. left. reflexivity. }
+    assert (Hnf : no_founder p g).
+    { intros n S Hin E. apply (Hpg n S Hin). destruct n as [|a n']; [discriminate|].
+      simpl in E. injection E as E. subst a. left. reflexivity. }
+    destruct (renames_ok proc' p peps HpL Hproc rest g pm Hc' Hnf Hinv Hnd Hndms)
+      as [g' [pm' [Hrun' [Hcg' [_ [Hinv' [Hnd' [R1 R2]]]]]]]].
+    { intros m Hm. apply Hms in Hm. destruct Hm as [S [Hin Hsub]]. exists S.
+      split; [assumption|split; [assumption|apply (Hpg m S Hin)]]. }
+    exists g', pm'. split; [exact (eq_trans Hstep Hrun')|].
+    constructor; try assumption.
+    + intros n S x px Hin Hx Hsub. apply in_app_iff in Hx.
+      destruct (R1 n S Hin) as [[Hing Hnr]|[m [Hm [Hing En]]]].
+      * destruct Hx as [Hx|[Hx|[]]].
+        -- apply (Hcomp n S x px); assumption.
+        -- injection Hx as E1 E2. subst x px. exfalso. apply Hnr. apply Hms. exists S. split; assumption.
+      * subst n. apply in_app_iff. destruct Hx as [Hx|[Hx|[]]].
+        -- left. apply (Hcomp m S x px); assumption.
+        -- injection Hx as E1 E2. subst x px. right. left. reflexivity.
+    + intros x px Hx. apply in_app_iff in Hx. destruct Hx as [Hx|[Hx|[]]].
+      * destruct (Hcov x px Hx) as [n [S [Hin Hxn]]].
+        destruct (R2 n S Hin) as [Ra Rb].
+        destruct (memn n rest) eqn:E.
+        -- apply memn_spec in E. exists (n ++ [p]), S. split; [apply Rb; assumption|].
+           apply in_app_iff. left. assumption.
+        -- apply memn_false in E. exists n, S. split; [apply Ra; assumption|assumption].
+      * injection Hx as E1 E2. subst x px.
+        assert (Hm0 : In m0 rest) by (left; reflexivity).
+        destruct (proj1 (Hms m0) Hm0) as [S [Hin Hsub]].
+        destruct (R2 m0 S Hin) as [_ Rb].
+        exists (m0 ++ [p]), S. split; [apply Rb; assumption|].
+        apply in_app_iff. right. left. reflexivity.
+Qed.
+
+Fixpoint desc_sorted (l : list (P * list nat)) : Prop :=
+  match l with
+  | [] => True
+  | x :: r => (forall y, In y r -> length (snd y) <= length (snd x)) /\ desc_sorted r
+  end.
+
+Lemma desc_sorted_app : forall a q b, desc_sorted (a ++ q :: b) ->
+  forall y, In y a -> length (snd q) <= length (snd y).
+Proof.
+  induction a as [|x a IH]; intros q b Hs y Hy; [contradiction|].
+  simpl in Hs. destruct Hs as [Hx Hs]. destruct Hy as [Hy|Hy].
+  - subst y. apply Hx. apply in_app_iff. right. left. reflexivity.
+  - apply (IH q b Hs y Hy).
+Qed.
+
+Lemma loop_ok : forall todo done g pm,
+  L = done ++ todo -> desc_sorted L -> (forall p peps, In (p, peps) L -> peps <> []) ->
+  ginv done g pm ->
+  exists g' pm', gr_loop P peqb pi (g, pm) todo = Ok (g', pm') /\ ginv L g' pm'.
+Proof.
+  induction todo as [|[p peps] r IH]; intros done g pm EL Hs Hne Hgi.
+  - rewrite app_nil_r in EL. subst done. exists g, pm. split; [reflexivity|assumption].
+  - assert (HpL : In (p, peps) L) by (rewrite EL; apply in_app_iff; right; left; reflexivity).
+    assert (HdL : incl done L) by (intros y Hy; rewrite EL; apply in_app_iff; left; assumption).
+    assert (Hpnd : ~ In p (map fst done)).
+    { pose proof L_names as Hn. rewrite EL in Hn. rewrite map_app in Hn. simpl in Hn.
+      apply NoDup_remove_2 in Hn. intros H. apply Hn. apply in_app_iff. left. assumption. }
+    assert (Hlen : forall y, In y done -> length peps <= length (snd y)).
+    { intros y Hy. rewrite EL in Hs. apply (desc_sorted_app done (p, peps) r Hs y Hy). }
+    destruct (step_ok done p peps g pm HpL HdL Hpnd (Hne p peps HpL) Hlen Hgi) as [g1 [pm1 [Hrun Hgi1]]].
+    destruct (IH (done ++ [(p, peps)]) g1 pm1) as [g' [pm' [Hrun' Hgi']]]; try assumption.
+    { rewrite <- app_assoc. exact EL. }
+    exists g', pm'. split; [|assumption].
+    simpl. rewrite Hrun. exact Hrun'.
+Qed.
+
+(* the peptide dict handed to _group_proteins: peptide -> one-element names of its proteins *)
+Definition pm0_ok (pm : gr_pmap P) : Prop :=
+  (forall pep x, In x (lookup pep pm) <-> exists p peps, In (p, peps) L /\ x = [p] /\ In pep peps)
+  /\ pm_nodup pm.
+
+Lemma ginv_init : forall pm, pm0_ok pm -> ginv [] [] pm.
+Proof.
+  intros pm [H0 Hnd]. constructor; try assumption.
+  - constructor.
+    + intros n S [].
+    + constructor.
+    + intros n S x [].
+    + intros n S n' S' [].
+    + intros n S [].
+  - intros n S x peps [].
+  - intros x peps [].
+  - intros pep x. rewrite (H0 pep x). split.
+    + intros [p [peps [HL [Hx Hpep]]]]. right. exists p, peps. repeat split; try assumption.
+      intros n S [].
+    + intros [[S [[] _]] | [p [peps [HL [Hx [Hpep _]]]]]]. exists p, peps. repeat split; assumption.
+Qed.
+
 End Inv.
 
 End GroupingProofs.
